@@ -447,3 +447,89 @@ fn promote_container_to_array(container: &Container, hll_type: HllType, lg_confi
         }
     }
 }
+
+#[cfg(feature = "verif-hooks")]
+impl HllSketch {
+    /// Verification hook: offers a crafted coupon exactly as `update` offers a hashed one.
+    pub fn verif_update_with_coupon(&mut self, coupon: u32) {
+        self.update_with_coupon(coupon);
+    }
+
+    /// Verification hook: dumps the in-memory state without going through the serializer.
+    pub fn verif_state(&self) -> crate::verif::VerifHllState {
+        use crate::verif::VerifHllState;
+        let tgt = match self.target_type() {
+            HllType::Hll4 => 4,
+            HllType::Hll6 => 6,
+            HllType::Hll8 => 8,
+        };
+        let mut st = VerifHllState {
+            mode: 0,
+            lg_k: self.lg_config_k,
+            tgt,
+            lg_arr: 0,
+            table: vec![],
+            len: 0,
+            registers: vec![],
+            raw4: vec![],
+            cur_min: 0,
+            num_at_cur_min: 0,
+            aux: None,
+            hip_accum: 0.0,
+            kxq0: 0.0,
+            kxq1: 0.0,
+            ooo: false,
+        };
+        let k = 1u32 << self.lg_config_k;
+        match &self.mode {
+            Mode::List { list, .. } => {
+                let c = list.container();
+                st.mode = 0;
+                st.lg_arr = c.lg_size();
+                st.table = c.coupons.to_vec();
+                st.len = c.len();
+            }
+            Mode::Set { set, .. } => {
+                let c = set.container();
+                st.mode = 1;
+                st.lg_arr = c.lg_size();
+                st.table = c.coupons.to_vec();
+                st.len = c.len();
+            }
+            Mode::Array4(arr) => {
+                let (cur_min, num_at_cur_min, raw, aux, est) = arr.verif_parts();
+                st.mode = 2;
+                st.registers = (0..k).map(|s| arr.get(s)).collect();
+                st.raw4 = raw;
+                st.cur_min = cur_min;
+                st.num_at_cur_min = num_at_cur_min;
+                st.aux = aux;
+                st.hip_accum = est.hip_accum();
+                st.kxq0 = est.kxq0();
+                st.kxq1 = est.kxq1();
+                st.ooo = est.is_out_of_order();
+            }
+            Mode::Array6(arr) => {
+                let (num_zeros, est) = arr.verif_parts();
+                st.mode = 2;
+                st.registers = (0..k).map(|s| arr.get(s)).collect();
+                st.num_at_cur_min = num_zeros;
+                st.hip_accum = est.hip_accum();
+                st.kxq0 = est.kxq0();
+                st.kxq1 = est.kxq1();
+                st.ooo = est.is_out_of_order();
+            }
+            Mode::Array8(arr) => {
+                let (num_zeros, est) = arr.verif_parts();
+                st.mode = 2;
+                st.registers = (0..k).map(|s| arr.get(s)).collect();
+                st.num_at_cur_min = num_zeros;
+                st.hip_accum = est.hip_accum();
+                st.kxq0 = est.kxq0();
+                st.kxq1 = est.kxq1();
+                st.ooo = est.is_out_of_order();
+            }
+        }
+        st
+    }
+}
